@@ -6,10 +6,34 @@ NOTE_COMMON = ("Trusted: Coq 8.16.1 kernel (+vm_compute), the Go->Coq translator
                "ExtrOcamlBasic extraction + OCaml driver (cross-checked by an in-Coq sample), the Go harness. "
                "The hand-written model is tied to the code by differential correspondence on generated cases, not by proof. ")
 CLAIMED = {
+ "C01": dict(
+   text="Theorems (Props/C01.v): serialise(parse x) ++ remainder = x for certificate, signature (every type code), every fixed-size structure, strings; the composite parsers (keys-and-cert, leasesets, router info/address, mapping) are modelled in full and tied to the code by correspondence on every generated input, with the property oracle Bytes()++rem==input evaluated on the implementation for every accepted input.",
+   design="8/C01", technique="Coq proof over executable model + differential correspondence + implementation-side round-trip oracle",
+   note=NOTE_COMMON + "Composite-parser round-trip theorems are in progress; until then those parsers are decided by correspondence+oracle only (stated in the evidence). Known finding D2 (mapping slack) is reported as KNOWN-FINDING."),
+ "C03": dict(
+   text="Theorems (Props/C03.v): append-invariance implies prefix-freeness for every parser (general lemma); append-invariance + prefix-freeness for fixed-size parsers and signatures (all type codes); certificate consumed extent and append behaviour. All 24 parsers are run on w, w++tail and every/many cut points of w with the property as oracle.",
+   design="8/C03", technique="Coq proof (framing lemmas) over executable model + differential correspondence + framing oracle on the implementation",
+   note=NOTE_COMMON + "Known finding D6 (whole-input minimum-size guards) is reported as KNOWN-FINDING."),
+ "C04": dict(
+   text="Theorems (Props/C04.v): the model's only sources of Panic are the slice/index primitives; parsers proved Panic-free so far: fixed-size, integer, string, certificate, signature for every integer type code; size lookups never return negative or huge sizes. Every parser is additionally executed under recover() with a deadline on generated/mutated/raw inputs and all 65,536 type codes, and every exported argument-free method of every accepted value is invoked by reflection.",
+   design="8/C04", technique="Coq proof (typed partiality) over executable model + three-valued correspondence + reflection sweep",
+   note=NOTE_COMMON + "Go runtime behaviour outside the slice/index discipline (allocation, stack, logger) is not modelled; wall-clock bound is checked by deadline only."),
+ "C09": dict(
+   text="Theorems (Props/C09.v): for EVERY integer code the library's deny sets (regenerated from the Go source) equal the specification's; every Destination/RouterIdentity returned by the modelled readers/constructors carries only permitted types; permitted types are never denied. All known codes x all known codes (plus sampled unknown codes) are pushed through every API path that yields a Destination or RouterIdentity.",
+   design="8/C09", technique="Coq proof by reflection over translator-regenerated deny tables + exhaustive path sweep",
+   note=NOTE_COMMON),
+ "C10": dict(
+   text="Theorem (Props/C10.v): for every code 0..65535 all size lookups regenerated from the Go source (key certificate maps, signature switch, offline-signature switches, crypto size maps) agree with each other and with the specification's table written independently in Coq; out-of-range codes are errors. Translation validation: the Go lookups are called on all 65,536 codes and compared with the regenerated tables; key-block layout checked on generated identities of every supported pair.",
+   design="8/C10", technique="Coq proof by reflection over translator-regenerated tables + exhaustive translation validation",
+   note=NOTE_COMMON),
  "C12": dict(
    text="Theorems (Props/C12.v) over the Gallina model of package data: encode/decode inverse for every width 1..8 and every value, rejection of out-of-domain arguments, fixed-width helpers, millisecond dates for every int64 >= 0, strings of every length <= 255 with any remainder, short-input behaviour of every reader, full 64-bit range of UintSafe. Unbounded quantifiers, kernel-checked; model tied to /repo by the regenerated constants and by running model and implementation on the same ~59k cases.",
    design="8/C12", technique="Coq proof over executable model + differential correspondence (extracted OCaml and in-Coq vm_compute) + translator-regenerated constants",
    note=NOTE_COMMON + "Go time.Unix/UnixMilli arithmetic is modelled (int64 wrap explicit), not verified."),
+ "C19": dict(
+   text="Theorems (Props/C19.v): integer constructors identical; exact-length signature constructor accepts exactly what the reader consumes completely (all type codes); destination/router-identity readers are the generic reader plus filter; key certificate from bytes = from certificate after ReadCertificate. ~25 pairs of entry points are run on the same generated/mutated inputs and compared (acceptance, serialisation, remainder).",
+   design="8/C19", technique="Coq proof over executable model + pairwise differential oracle on the implementation",
+   note=NOTE_COMMON),
 }
 PENDING = {}
 props = [json.loads(l) for l in open(os.path.join(ROOT, "properties.jsonl"))]
